@@ -52,3 +52,14 @@ func VerifSetBcryptCost(c int) int {
 	bcryptCost = c
 	return old
 }
+
+// VerifNewClient returns a Client that holds d as its cached metadata without
+// contacting a meta service (the node id is derived from tcpAddr the way the
+// polling loop does).
+func VerifNewClient(config *Config, tcpAddr string, d *Data) *Client {
+	c := NewClient(config)
+	c.tcpAddr = tcpAddr
+	c.cacheData = d
+	c.updateNodeID()
+	return c
+}
